@@ -2,6 +2,8 @@
 //! line per observation. The extracted Coq model (ocaml/driver) re-computes every line.
 mod abi;
 mod bitboard;
+mod chess;
+mod fen;
 mod rng;
 mod score;
 mod tables;
@@ -45,6 +47,18 @@ fn main() {
             let ex: usize = args.get(3).and_then(|s| s.parse().ok()).unwrap_or(2);
             tracing::run(&mut out, &mut rng, ex, n)
         }
+        "positions" => {
+            // positions <n> <with_moves 0/1> <with_checked 0/1> <legal_set_every>
+            let a = |i: usize| args.get(i).and_then(|s| s.parse::<usize>().ok()).unwrap_or(0);
+            chess::run_positions(&mut out, &mut rng, n, a(3) != 0, a(4) != 0, a(5))
+        }
+        "epfamily" => chess::ep_family(&mut out, &mut rng, n.max(1) as u64),
+        "castlefamily" => chess::castle_family(&mut out),
+        "fen" => {
+            let seeds: usize = args.get(3).and_then(|s| s.parse().ok()).unwrap_or(2);
+            fen::run(&mut out, &mut rng, n, seeds)
+        }
+        "builder" => fen::builders(&mut out, &mut rng, n),
         "replay" => {
             let line = args.get(2).cloned().unwrap_or_default();
             let f: Vec<&str> = line.split('\t').collect();
@@ -55,6 +69,8 @@ fn main() {
                 "TX" | "IT" | "TS" | "TM" | "PU" | "PS" | "PF" | "PD" | "PN" => text::replay(&mut out, &f),
                 "AB" | "AS" => abi::run(&mut out, &mut rng, 0),
                 "TR" => tracing::replay(&mut out, &f),
+                "PO" | "MV" | "CK" | "LG" => chess::replay(&mut out, &f),
+                "FP" | "BL" => fen::replay(&mut out, &f),
                 k => {
                     eprintln!("replay: unknown kind {k}");
                     std::process::exit(2)
